@@ -1088,6 +1088,24 @@ package rueidis
 //@   ensures [C02 the-lock-kept-for-the-result-is-the-slots] r.resc != nil
 
 // ---------------------------------------------------------------------------------------------
+// C01 — the two pipeline goroutines, sequentially (pipe.go): the writer writes the commands of each batch it takes from the
+// queue in the batch's own order and takes the next batch only after that; the reader attributes every reply to the next
+// unanswered command of the batch it holds, releases the batch exactly when its last reply is stored, and only then takes
+// the next batch. With C02 (both take batches in ticket order) replies meet their commands in order.
+//@ func pipe._backgroundWrite #c01
+//@   option opaque-pkgs=github.com/redis/rueidis/internal/cmds
+//@   modifies *
+//@   assert [C01 commands-of-a-batch-are-written-in-the-batchs-order] at writeCmd#1: 0 <= rangeindex + 1 && rangeindex + 1 < len(multi) && arg0 == p.w
+//@   loop 2: invariant [C01 one-write-per-command-of-the-batch] rangeindex >= -1 && calls(writeCmd, 1) == atentry(calls(writeCmd, 1)) + rangeindex + 1
+//@ func pipe._backgroundRead #c01
+//@   option opaque-pkgs=github.com/redis/rueidis/internal/cmds
+//@   option timeout=90
+//@   modifies *
+//@   assert [C01 a-new-batch-starts-with-no-reply-attributed] at NextResultCh: ff == 0
+//@   assert [C01 the-result-handed-on-is-the-message-just-read] at NewResult: arg0 == msg
+//@   assert [C01 a-batch-is-released-exactly-when-its-last-reply-has-been-stored] at FinishResult#2: ff == len(multi) && (resps == nil || resps[ff - 1] == resp)
+
+// ---------------------------------------------------------------------------------------------
 // C07 — cached replies expire at the earlier of the client TTL and the server PTTL (message.go, lru.go).
 // The expiry of a cached message is the 56-bit little-endian number kept in RedisMessage.ttl (0 = none).
 //@ func RedisMessage.setExpireAt
